@@ -150,6 +150,50 @@ pub fn zero_tag_family() -> Vec<(String, ModelSpec)> {
     pool
 }
 
+/// T6: nested tag n-grams (suffix chains) for ONE token at the SAME relative position, each with
+/// its own zero pattern (none / trailing zeros / all zero / leading zeros), for class counts on
+/// both sides of the fixed(8)/variable switch: the merge along suffix chains must add every class.
+pub fn nested_tag_family() -> Vec<(String, ModelSpec)> {
+    let mut out = vec![];
+    let zero = |v: &mut Vec<i32>, pat: u8| {
+        let n = v.len();
+        match pat {
+            1 => v.iter_mut().skip(n / 2).for_each(|x| *x = 0),
+            2 => v.iter_mut().for_each(|x| *x = 0),
+            3 => v.iter_mut().take(n / 2).for_each(|x| *x = 0),
+            _ => {}
+        }
+    };
+    for shape in [vec![9usize], vec![5, 5], vec![3, 3, 3, 2], vec![2, 3]] {
+        for r in 0..2u8 {
+            for pats in gen::vectors(4, 3) {
+                for kind in 0..2u8 {
+                    let chain: Vec<TagNg> = if kind == 0 {
+                        vec![TagNg::Char("a".into(), r), TagNg::Char("ba".into(), r), TagNg::Char("aba".into(), r)]
+                    } else {
+                        vec![TagNg::Type(vec![2], r), TagNg::Type(vec![2, 2], r), TagNg::Type(vec![3, 2, 2], r)]
+                    };
+                    let mut m = boundary_part(0, 2);
+                    let mut tm = tag_model("a", &shape, &chain, 0, 91 + kind as u64);
+                    for (i, d) in tm.char_ngram_model.iter_mut().enumerate() {
+                        for w in d.weights.iter_mut() {
+                            zero(&mut w.weights, pats[i]);
+                        }
+                    }
+                    for (i, d) in tm.type_ngram_model.iter_mut().enumerate() {
+                        for w in d.weights.iter_mut() {
+                            zero(&mut w.weights, pats[i]);
+                        }
+                    }
+                    m.tag_models.push(tm);
+                    out.push((format!("T6 shape={shape:?} r={r} kind={kind} zero-patterns={pats:?}"), m));
+                }
+            }
+        }
+    }
+    out
+}
+
 pub struct Case {
     pub spec: ModelSpec,
     pub desc: String,
@@ -331,6 +375,7 @@ pub fn run(tier: Tier) -> ! {
     let texts = gen::strings(&sigma, 1, l);
     let mut cases = families(tier);
     cases.extend(zero_tag_family().into_iter().map(|(desc, spec)| Case { spec, desc: format!("T5 {desc}") }));
+    cases.extend(nested_tag_family().into_iter().step_by(tier.pick(3, 1)).map(|(desc, spec)| Case { spec, desc }));
     chk.set("models", json!(cases.len()));
     chk.set("texts", json!(texts.len()));
     chk.set("max_text_len", json!(l));
@@ -385,7 +430,7 @@ pub fn run(tier: Tier) -> ! {
     chk.assume("reference: candidate score = bias + weights of every tag n-gram whose occurrence ends rel_position characters after the token's last character; first maximum wins");
     chk.assume("boundaries at fill time are read back from the sentence (their correctness is C01)");
     chk.finish(
-        "tag-model families T1 (all category-shape pairs), T2 (all tag n-gram subsets incl. same n-gram at two offsets and shared between tokens), T3 (which scorers exist), T4 (8/9/10 classes) x windows x all texts over {a,b,あ} x predicted boundaries and every forced {N,W,U} vector x score storing on/off x tag buffer empty / already filled once / holding unrelated tags (rotating third); non-trivial = some token receives a tag; distinct by construction",
+        "tag-model families T1 (all category-shape pairs), T2 (all tag n-gram subsets incl. same n-gram at two offsets and shared between tokens), T3 (which scorers exist), T4 (8/9/10 classes) T5 (zero-pattern bias/weight vectors), T6 (nested tag n-grams at one offset with independent zero patterns) x windows x all texts over {a,b,あ} x predicted boundaries and every forced {N,W,U} vector x score storing on/off x tag buffer empty / already filled once / holding unrelated tags (rotating third); non-trivial = some token receives a tag; distinct by construction",
         true,
         &replay,
     )
